@@ -137,8 +137,10 @@ Definition is_null_h (w : world) (l : iloc) : bool := match cval w (target w l) 
 Definition is_arr_h (w : world) (l : iloc) : bool :=
   match cval w (target w l) with HArr _ | HSparse _ _ => true | _ => false end.
 Definition is_dict_h (w : world) (l : iloc) : bool := match cval w (target w l) with HDict _ => true | _ => false end.
+(* getArrayNItems(): BaseHandle::size() switches on resolved_type_code(), which does NOT follow a QPDF_Reference
+   (it answers 0 for one), although isArray() does *)
 Definition arr_size (w : world) (l : iloc) : nat :=
-  match cval w (target w l) with HArr els => length els | HSparse n _ => n | _ => O end.
+  match cval w l with HArr els => length els | HSparse n _ => n | _ => O end.
 
 Definition set_val (w : world) (l : iloc) (v : hval) : world :=
   match hget w l with Some c => hset w l (mkCell v (c_qpdf c) (c_og c)) | None => w end.
@@ -284,6 +286,7 @@ Definition nav1 (sh : bool) (a : nat) (w : world) (l : iloc) (s : hstep) : optio
   let t := target w l in
   match s with
   | SIdx n =>           (* QPDFObjectHandle::getArrayItem, guarded by isArray() and 0 <= n < getArrayNItems() *)
+    if negb (Nat.ltb n (arr_size w l)) then None else
     match cval w t with
     | HArr els => match nth_error els n with Some e => Some (w, e) | None => None end
     | HSparse sz els => if Nat.ltb n sz then
@@ -292,6 +295,7 @@ Definition nav1 (sh : bool) (a : nat) (w : world) (l : iloc) (s : hstep) : optio
     | _ => None
     end
   | SVec n =>           (* getArrayAsVector().at(n) *)
+    if negb (Nat.ltb n (arr_size w l)) then None else
     match cval w t with
     | HArr els => match nth_error els n with Some e => Some (w, e) | None => None end
     | HSparse sz els => if Nat.ltb n sz then
@@ -343,6 +347,17 @@ Definition eval_hx (sh : bool) (a : nat) (w : world) (e : hexpr) : option (world
   | Some _ => match eval_head a w (fst e) with Some (w1, l) => nav sh a w1 l (snd e) | None => None end
   end.
 
+(* a value that is put into a container must be a scalar, an indirect object or a freshly made object *)
+Definition eval_vx (sh : bool) (a : nat) (w : world) (e : hexpr) : option (world * iloc) :=
+  match eval_hx sh a w e with
+  | Some (w1, l) =>
+    match fst e with
+    | ERoot _ | EObj _ => if (is_arr_h w1 l || is_dict_h w1 l) && (cog w1 l =? 0) then None else Some (w1, l)
+    | _ => Some (w1, l)
+    end
+  | None => None
+  end.
+
 (* ---------------------------------------------------------------- operations *)
 Inductive iop :=
 | OpNewDoc                                   (* QPDF q; q.emptyPDF() *)
@@ -356,7 +371,8 @@ Inductive iop :=
 | OpErase (h : hexpr) (n : nat)
 | OpReplaceObj (id : N) (v : hexpr)          (* q.replaceObject(id, 0, v) *)
 | OpDestroy                                  (* ~QPDF *)
-| OpObserve.                                 (* write / JSON export: no effect on the modelled state *)
+| OpObserve                                  (* QPDFWriter::write (default configuration): no effect on the modelled state *)
+| OpJson.                                    (* QPDF::writeJSON: getAllObjects() re-labels every cached object with its key *)
 
 Inductive ires := ROk | RSkip | RLogic.
 
@@ -430,7 +446,7 @@ Definition step (sh : bool) (a : nat) (w : world) (op : iop) : world * ires :=
     match eval_hx sh a w h with
     | Some (w1, lh) =>
       if is_dict_h w1 lh then
-        match eval_hx sh a w1 v with
+        match eval_vx sh a w1 v with
         | Some (w2, lv) =>
           if own_clash w2 lh lv then (w2, RLogic) else
           let t := target w2 lh in
@@ -461,7 +477,7 @@ Definition step (sh : bool) (a : nat) (w : world) (op : iop) : world * ires :=
     match eval_hx sh a w h with
     | Some (w1, lh) =>
       if is_arr_h w1 lh then
-        match eval_hx sh a w1 v with
+        match eval_vx sh a w1 v with
         | Some (w2, lv) =>
           if own_clash w2 lh lv then (w2, RLogic) else
           let t := target w2 lh in
@@ -479,7 +495,7 @@ Definition step (sh : bool) (a : nat) (w : world) (op : iop) : world * ires :=
     match eval_hx sh a w h with
     | Some (w1, lh) =>
       if is_arr_h w1 lh && Nat.ltb n (arr_size w1 lh) then
-        match eval_hx sh a w1 v with
+        match eval_vx sh a w1 v with
         | Some (w2, lv) =>
           if own_clash w2 lh lv then (w2, RLogic) else
           let t := target w2 lh in
@@ -539,6 +555,18 @@ Definition step (sh : bool) (a : nat) (w : world) (op : iop) : world * ires :=
     | None => (w, RSkip)
     end
   | OpObserve => if alive w a then (w, ROk) else (w, RSkip)
+  | OpJson =>
+    match dv_get w a with
+    | Some dv =>
+      if dv_alive dv then
+        (* Objects::newIndirect -> setDefaultDescription(&qpdf, og) for every entry of obj_cache, in key order *)
+        (fold_left (fun wa e => match hget wa (snd e) with
+                                | Some c => hset wa (snd e) (mkCell (c_val c) (Some a) (fst e))
+                                | None => wa
+                                end) (dv_cache dv) w, ROk)
+      else (w, RSkip)
+    | None => (w, RSkip)
+    end
   end.
 
 (* ---------------------------------------------------------------- observation: QPDFObjectHandle::unparse *)
